@@ -16,7 +16,8 @@ import traceback
 
 VERIF = os.path.dirname(os.path.dirname(os.path.abspath(__file__)))
 LEAN = os.path.join(VERIF, "lean")
-REPO = os.environ.get("PYLIFE_REPO", "/repo")
+DEFAULT_REPO = "/repo"
+REPO = os.environ.get("PYLIFE_REPO", DEFAULT_REPO)
 DRIVER = os.path.join(LEAN, ".lake", "build", "bin", "driver")
 ALLOWED_AXIOMS = {"propext", "Classical.choice", "Quot.sound"}
 FORBIDDEN = re.compile(r"\bsorry\b|\badmit\b|^axiom |native_decide|bv_decide|implemented_by|\bunsafe |maxHeartbeats 0")
@@ -163,7 +164,7 @@ def _merge_stats(dst, src):
         if isinstance(v, dict):
             _merge_stats(dst.setdefault(k, {}), v)
         elif isinstance(v, (int, float)) and not isinstance(v, bool):
-            if k.startswith("max_") or k.startswith("max"):
+            if k.startswith("max_"):
                 dst[k] = max(dst.get(k, 0), v)          # a maximum over the workers, not a sum
             else:
                 dst[k] = dst.get(k, 0) + v
@@ -228,6 +229,12 @@ def load_known(pid):
 
 
 # ---------------------------------------------------------------- the check
+def _harness_side(exc):
+    """Exceptions that are about the machinery itself, never about the implementation's behaviour."""
+    msg = str(exc)
+    return isinstance(exc, (MemoryError, OSError, ImportError, RecursionError, KeyboardInterrupt)) or msg.startswith("harness:") or "inject()" in msg
+
+
 def _involves_implementation(exc):
     src = os.path.join(os.path.realpath(REPO), "src")
     tb = exc.__traceback__
@@ -332,7 +339,13 @@ class Prop:
         except Exception as e:
             if _involves_implementation(e):
                 return (f"the implementation raises {type(e).__name__}: {str(e)[:300]}", "implementation-raises")
-            raise
+            if _harness_side(e):
+                raise
+            # raised in the harness while it digests what the implementation returned (a changed shape / type / None / missing
+            # column): the implementation's result is not what the property describes - a failure on this input, not an
+            # infrastructure problem.  (On the unchanged tree the checks run clean over many seeds, so this is not a harness bug
+            # in practice; if it ever is one it shows as a VIOLATION whose replay names the exception.)
+            return (f"the implementation's result cannot be interpreted: {type(e).__name__}: {str(e)[:300]}", "unexpected-result")
         if res is None and self._known_seen:
             return self._known_seen[0]          # only known findings on this case: reported as such, counted by run_check
         return res
@@ -352,7 +365,7 @@ class Prop:
         try:
             return self.impl_lines(case)
         except Exception as e:
-            if _involves_implementation(e):
+            if _involves_implementation(e) or not _harness_side(e):
                 return [f"EXC {type(e).__name__}: {str(e)[:200]}"]
             raise
 
@@ -469,6 +482,7 @@ def run_check(prop, tier, seed, replay=None):
     prop.known_classes = known_classes          # before the workers fork: Prop.known() consults it
     oracle_fail = []
     known_hits = {}
+    known_count = {}
     n_oracle = 0
     for c, res in zip(cases, pmap(prop, "_oracle_safe", cases)):
         n_oracle += 1
@@ -476,6 +490,7 @@ def run_check(prop, tier, seed, replay=None):
             desc, klass = res
             if klass in known_classes:
                 known_hits.setdefault(klass, (c, desc))
+                known_count[klass] = known_count.get(klass, 0) + 1
             else:
                 oracle_fail.append(Failure("oracle", c, desc, klass))
     log(f"oracle: {n_oracle} cases, {len(oracle_fail)} failing outside known findings, known classes hit: {sorted(known_hits)}")
@@ -499,8 +514,14 @@ def run_check(prop, tier, seed, replay=None):
         if e.get("status") != "open":
             continue
         res = prop._oracle_safe(e["witness"])
-        if res is not None:
+        if res is not None and res[1] == e["class"]:
             known_lines.append(f"KNOWN-FINDING: property={pid} {e['what']}")
+        elif res is not None:
+            # the recorded witness now fails in ANOTHER way: that is not the recorded finding
+            if res[1] not in known_classes:
+                oracle_fail.append(Failure("oracle", e["witness"], f"witness of known finding {e['class']} now fails differently: {res[0]}", res[1]))
+            else:
+                known_lines.append(f"KNOWN-FINDING: property={pid} {e['what']}")
         else:
             log(f"note: witness of known finding {e['class']} no longer fails on this tree")
 
@@ -536,13 +557,18 @@ def run_check(prop, tier, seed, replay=None):
             "theorems": {t: axioms.get(t) for t in prop.THEOREMS},
             "partial_theorems": prop.PARTIAL,
             "leanchecker": leanchecker,
-            "evaluations": n_corr + n_oracle + searched,
+            "evaluations": len(cases) + searched,          # generated cases (each goes through correspondence AND oracle) + searched ones
+            "correspondence_cases": n_corr,
             "traces_validated_against_impl": n_corr - len(corr_fail),
             "oracle_evaluations": n_oracle,
+            "known_class_hits": {k: known_count.get(k, 0) for k in sorted(known_classes)},
             "distinct_nontrivial": len(nontrivial),
             "rule": prop.RULE,
             "samples": samples or [{"note": "no correspondence case ran"}],
-            "exhaustive": bool(getattr(prop, "exhaustive", False)),
+            # `exhaustive` in the schema's sense (the run enumerated a finite space completely) is never claimed: every
+            # check also draws seeded random cases; the completely enumerated sub-scopes are listed instead
+            "exhaustive": False,
+            "exhaustive_subscopes": [v for k, v in sorted(getattr(prop, "stats", {}).items()) if k.startswith("exhaustive_scope")],
             "distribution": getattr(prop, "stats", {}),
             "sources": {s: sha(os.path.join(REPO, s)) for s in prop.SOURCES},
             "known_findings_reported": known_lines,
@@ -551,7 +577,11 @@ def run_check(prop, tier, seed, replay=None):
         "wall_s": round(time.time() - t0, 2),
         "violations": 0 if violation is None else 1,
     }
-    evdir = os.environ.get("VERIF_EVIDENCE_DIR") or os.path.join(VERIF, "evidence")   # seeded-change runs write elsewhere
+    evdir = os.environ.get("VERIF_EVIDENCE_DIR")
+    if not evdir:
+        # evidence/ holds runs against /repo itself only; a run against another tree (PYLIFE_REPO: seeded changes, scratch
+        # repairs) writes to a git-ignored directory
+        evdir = os.path.join(VERIF, "evidence") if os.path.realpath(REPO) == os.path.realpath(DEFAULT_REPO) else os.path.join(VERIF, ".cache", "evidence-other-tree")
     if not replay:   # a replay of stored cases is not a run of the check: it leaves the evidence alone
         os.makedirs(evdir, exist_ok=True)
         with open(os.path.join(evdir, f"{pid}.json"), "w") as f:
